@@ -10,6 +10,8 @@ Ds == {-4, -3, -2, -1, 0, 1, 2, 3}
 Lattice == {[s |-> s, k |-> k, d |-> d] : s \in {1, -1}, k \in Ks, d \in Ds}
             \ {[s |-> -1, k |-> 32, d |-> d] : d \in Ds}
 GeneSets == {<<[cls |-> "ens", id |-> 1], [cls |-> "ens", id |-> 2]>>,
+             <<[cls |-> "ens", id |-> 1], [cls |-> "unk", id |-> 2]>>,          \* identifiers and unknown names, no symbol
+             <<[cls |-> "ensv", id |-> 1], [cls |-> "unk", id |-> 2], [cls |-> "unk", id |-> 3]>>,
              <<[cls |-> "ens", id |-> 1], [cls |-> "ensv", id |-> 2]>>,
              <<[cls |-> "sym", id |-> 1], [cls |-> "ens", id |-> 2], [cls |-> "unk", id |-> 3]>>,
              <<[cls |-> "unk", id |-> 1], [cls |-> "sym", id |-> 2], [cls |-> "unk", id |-> 3]>>,
